@@ -24,6 +24,7 @@ MIN = 60 * 10**9
 T0 = 1_700_000_000 * 10**9
 HORIZON = 100 * MIN
 SCEN_SALT = "otel2puml-verif-scen-v1"
+LARGE_BASE = 100_000     # scenario indices >= LARGE_BASE: large-scale family
 
 
 def preload():
@@ -40,6 +41,11 @@ def gen_scenario(prop: str, idx: int) -> dict:
     """Deterministic scenario idx of the fixed grid for a property focus."""
     rng = random.Random(core.derive(SCEN_SALT, prop, idx))
     focus = prop
+    # indices from LARGE_BASE on: the same scenario generator at the scale of
+    # the default batch size (a thousand and more spans per flush batch, wide
+    # call trees) - thresholds such as 999 / 1000 bound variables or rows per
+    # page are invisible to the small scenarios
+    large = idx >= LARGE_BASE
     # realistic nanosecond clock: the ingestion period does not start or end
     # on a round number (window borders are then not exactly representable
     # as floats)
@@ -54,6 +60,11 @@ def gen_scenario(prop: str, idx: int) -> dict:
 
     def rand_shape(depth=0):
         t = rng.choice(labels)
+        if large:
+            kids = ([] if depth >= 2 else
+                    [rand_shape(depth + 1)
+                     for _ in range(rng.choice([0, 2, 5, 9, 12]))])
+            return (t, kids)
         kids = ([] if depth >= 2 else
                 [rand_shape(depth + 1)
                  for _ in range(rng.choice([0, 0, 1, 2, 3]))])
@@ -93,6 +104,8 @@ def gen_scenario(prop: str, idx: int) -> dict:
         "C12": ["ok"] * 5 + ["badname", "dangling"],
     }[focus]
     n_traces = rng.randint(1, 9 if focus in ("C09", "C12") else 7)
+    if large:
+        n_traces = rng.randint(25, 45)
     for k in range(n_traces):
         tid = f"t{k}"
         name = rng.choice(names)
@@ -199,6 +212,8 @@ def gen_scenario(prop: str, idx: int) -> dict:
     bs = rng.choice([1, 2, 3, 5, 1000])
     if focus == "C10":
         bs = rng.choice([1, 2, 3, 4, 5, 7, 10**6])
+    if large:
+        bs = rng.choice([500, 999, 1000, 1000, 1001, 1024, 2500, 10**6])
     later_process_dups = []
     for _ in range(n_dup):
         src_i = rng.randrange(len(stream))
